@@ -135,6 +135,27 @@ def replay_cells(rep, tier, selftest):
                 agree += 1
     log("[replay] %d cells replayed on the real compiler (%s), %d violations so far, model agreement %d/%d" %
         (len(cases), dict(verdicts), len(rep.violations), agree, modelled))
+    # The same cells as the SECOND module of a compilation (`penne pre.pn case.pn`): the first module leaves behind whatever
+    # the stages keep per module (symbols, resolution ids 1..40 of variables / parameters / members / constants of every
+    # common type).  The rule knows nothing of other modules: the verdict on the cell is the same.
+    obs2_path = os.path.join(common.WORK, tag("obs2") + ".ndjson")
+    common.pvh(["replay-c07", cases_path, obs2_path], exe_name="pvh_types",
+               env={"PVH_THREADS": os.environ.get("PVH_THREADS", "8"), "PVH_PREMODULE": "1"})
+    second = common.read_ndjson(obs2_path)
+    if len(second) != len(cases):
+        raise common.ToolError("replay (second module) returned %d observations for %d cells" % (len(second), len(cases)))
+    n2 = 0
+    for case, obs, obs2 in zip(cases, observations, second):
+        problem = compare_cell(case, obs2)
+        if problem and not compare_cell(case, obs):
+            kind, msg = problem
+            n2 += 1
+            rep.violation("cell", violation_key(case, obs2, kind) + " ^second-module",
+                          {"case": case, "observed": obs2, "observed_alone": obs, "problem": kind,
+                           "message": msg + " (as the second module of a compilation; alone the cell behaves as the rule says)",
+                           "how": "bin/check C07 --replay <this file>"})
+    log("[replay] the same %d cells as the second module of a compilation: %d differ from the rule only there" % (len(cases), n2))
+    os.remove(obs2_path)
     if not r.ok and not rep.violations and not rep.known_hits:
         rep.note_drift("TLC reports %s violated but no replayed cell shows it on the real code" % r.violated)
     selftests = {}
